@@ -194,6 +194,13 @@ def scenarios(tier: str) -> List[Dict[str, Any]]:
         for m in (_m("async", value=1), _m("async", outcome="raise"), _m("async", outcome="never", timeout=0.2),
                   _m("async", timeout=0.3, value="late"), _m("sync", value=2)):
             out.append(_sc([dict(m, labels={"x": "1", "n": 3, "f": 1.5, "b": True, "raw": b"\xff"}, typed=typed)], 0))
+    # one task name registered again with a function of the other kind (sync <-> async) between executions:
+    # each execution's result reflects the function that ran for it
+    for f1, f2, f3 in itertools.product(("async", "sync"), repeat=3):
+        for o2 in ("return", "raise"):
+            sc = _sc([_m(f1, value=1), _m(f2, value=2, outcome=o2), _m(f3, value=3)], 0, a=1)
+            sc["reregister"] = True
+            out.append(sc)
     # backend failures on every subset of saves, sequences of 2 (quick) / 3 (thorough) messages
     base = [
         _m("async"), _m("async", outcome="raise"), _m("sync", value=7), _m("async", outcome="noresult"),
